@@ -67,7 +67,7 @@ class Chains:
         self.base = {}
         if layout in ('jack_other_configs', 'jack_other_configs_within'):
             name = '%s|%s' % (self.e1, rng.choice(gen.REP_POOL))
-            n_ = self.n
+            n_ = max(int(self.n), 6)          # the constructor refuses chains with fewer than five samples
             variant = str(rng.choice(['shifted', 'same_ends', 'same_ends']))
             start = int(rng.integers(1, 40))
             if variant == 'shifted':
@@ -158,6 +158,8 @@ class Chains:
                 cfgs = self._chain_list(n)
                 m = mean if gi == 0 else 0.0
                 tab[n] = {int(c): float(v) for c, v in zip(cfgs, np.clip(rng.normal(size=len(cfgs)), -2.5, 2.5) * sigma + m)}
+            if any(len(d_) < 5 for d_ in tab.values()):
+                raise Skip()          # a chain of fewer than five configurations cannot be constructed: not a case
             forms = {n: str(rng.choice(['list', 'ndarray', 'native'])) for n in tab}
             oo = gen.table_to_obs(PE, tab, forms)
             o = oo if o is None else o + oo
